@@ -199,14 +199,15 @@ int main(int argc, char **argv) {
             /* argument vectors: fixed arguments first (all integer class), then the variadic ones grouped */
             #define PUSHI(x) I[ni++] = (long)(x)
             {
+                const size_t kbos = H_KBOS(id, dest && dest != NOZ && dmax > 0, (size_t)dmax * (wide ? sizeof(wchar_t) : 1));
                 rsize_t rd = wide ? (dmax < 0 ? RSIZE_MAX_WSTR + 1 : (rsize_t)dmax) : (dmax < 0 ? RSIZE_MAX_STR + 1 : (rsize_t)dmax);
                 const void *f = fnull ? NULL : (wide ? (const void *)fmtw : (const void *)fmt8);
-                if (!strcmp(fn, "sprintf_s")) { fnptr = (void *)_sprintf_s_chk; PUSHI(dest); PUSHI(rd); PUSHI(BOSU); PUSHI(f); }
-                else if (!strcmp(fn, "snprintf_s")) { fnptr = (void *)_snprintf_s_chk; PUSHI(dest); PUSHI(rd); PUSHI(BOSU); PUSHI(f); }
+                if (!strcmp(fn, "sprintf_s")) { fnptr = (void *)_sprintf_s_chk; PUSHI(dest); PUSHI(rd); PUSHI(kbos); PUSHI(f); }
+                else if (!strcmp(fn, "snprintf_s")) { fnptr = (void *)_snprintf_s_chk; PUSHI(dest); PUSHI(rd); PUSHI(kbos); PUSHI(f); }
                 else if (!strcmp(fn, "printf_s")) { fnptr = (void *)printf_s; PUSHI(f); }
                 else if (!strcmp(fn, "fprintf_s")) { fnptr = (void *)fprintf_s; PUSHI(stream); PUSHI(f); }
-                else if (!strcmp(fn, "swprintf_s")) { fnptr = (void *)_swprintf_s_chk; PUSHI(dest); PUSHI(rd); PUSHI(BOSU); PUSHI(f); }
-                else if (!strcmp(fn, "snwprintf_s")) { fnptr = (void *)_snwprintf_s_chk; PUSHI(dest); PUSHI(rd); PUSHI(BOSU); PUSHI(f); }
+                else if (!strcmp(fn, "swprintf_s")) { fnptr = (void *)_swprintf_s_chk; PUSHI(dest); PUSHI(rd); PUSHI(kbos); PUSHI(f); }
+                else if (!strcmp(fn, "snwprintf_s")) { fnptr = (void *)_snwprintf_s_chk; PUSHI(dest); PUSHI(rd); PUSHI(kbos); PUSHI(f); }
                 else if (!strcmp(fn, "wprintf_s")) { fnptr = (void *)wprintf_s; PUSHI(f); }
                 else if (!strcmp(fn, "fwprintf_s")) { fnptr = (void *)fwprintf_s; PUSHI(stream); PUSHI(f); }
                 else if (!strcmp(fn, "sscanf_s")) { fnptr = (void *)sscanf_s; PUSHI(inp8); PUSHI(f); }
